@@ -419,6 +419,9 @@ func c08R5(c *Ctx, r *Report) {
 				"value ∈ {0, the low sequence the request arrived with}", "the request's low sequence is overwritten with a value that is neither 0 nor the low sequence it arrived with: a waiting (longpoll) request would resume past a still-missing sequence")
 		})
 	}
+	if _, worker := c01Worker(c); worker != nil {
+		c01RestoreBeforeWait(c, r, worker, "C08-R5")
+	}
 	// SafeSequence used by channel cache reads
 	for _, name := range []string{"(*db.singleChannelCacheImpl).GetChanges", "(*db.singleChannelCacheImpl).GetCachedChanges"} {
 		fn := c.Func(name)
